@@ -19,7 +19,7 @@ func fullName(fn *ssa.Function) string {
 var intrinsics = map[string]bool{
 	"math.IsNaN": true, "math.IsInf": true, "math.Abs": true, "math.Signbit": true, "math.Floor": true, "math.Ceil": true,
 	"math.Trunc": true, "math.Sqrt": true, "math.Float64bits": true, "math.Float64frombits": true, "math.Inf": true, "math.NaN": true,
-	"math.Copysign": true, "math.Max": false, "math.Min": false, "math.RoundToEven": true,
+	"math.Copysign": true, "math.Max": false, "math.Min": false, "math.RoundToEven": true, "math.Round": true,
 	"strings.HasPrefix": true, "strings.HasSuffix": true,
 	"(*sync.Mutex).Lock": true, "(*sync.Mutex).Unlock": true, "(*sync.RWMutex).Lock": true, "(*sync.RWMutex).Unlock": true,
 	"(*sync.RWMutex).RLock": true, "(*sync.RWMutex).RUnlock": true,
@@ -80,6 +80,9 @@ func (f *Frame) intrinsic(name string, args []Val, rt types.Type) (Val, bool) {
 	case "math.Trunc":
 		g.Assumptions["intrinsic: math.Trunc = fp.roundToIntegral RTZ"] = true
 		return Val{S: app("fp.roundToIntegral", "RTZ", args[0].S), Sort: "Float64", GT: rt}, true
+	case "math.Round":
+		g.Assumptions["intrinsic: math.Round = fp.roundToIntegral RNA (half away from zero)"] = true
+		return Val{S: app("fp.roundToIntegral", "RNA", args[0].S), Sort: "Float64", GT: rt}, true
 	case "math.RoundToEven":
 		g.Assumptions["intrinsic: math.RoundToEven = fp.roundToIntegral RNE"] = true
 		return Val{S: app("fp.roundToIntegral", "RNE", args[0].S), Sort: "Float64", GT: rt}, true
